@@ -141,14 +141,15 @@ def run(ctx):
             p = derive_regex(rng, base)
         else:
             p = base if rng.random() < 0.6 else derive_pattern(rng, base, "", "")
-        if not p or (kind, p) in seen or qlib.quote(p) is None or reserved_word(p) or "\n" in p:
+        if not p or (kind, p) in seen or qlib.quote(p) is None or "\n" in p:
             continue
         if any(ord(c) > 127 for c in p):
             continue
         seen.add((kind, p))
         pats.append((kind, p))
     # implementation: eight operators
-    OPS = {"glob": ("=", "!="), "like": ("like", "not like"), "rx": ("=~", "!=~"), "exact": ("===", "!==")}
+    OPS = {"glob": ("=", "!="), "like": ("like", rng.choice(["not like", "notlike"])), "rx": (rng.choice(["=~", "~=", "rx", "regexp"]), rng.choice(["!=~", "!~=", "notrx"])),
+           "exact": (rng.choice(["===", "eeq"]), rng.choice(["!==", "ene"]))}
 
     def one(kp):
         kind, p = kp
